@@ -114,6 +114,15 @@ def clean_reg(g, kind):
                  r.choice([(0, r.randint(1, 187)), (1, r.randint(325, 511))]), r.choice([(0, r.randint(1, 187)), (1, r.randint(325, 511))]))
 
 
+def ambiguous_50_60(g):
+    """a valid BDS 5,0 register that also satisfies the BDS 6,0 rules (westerly track, slow): only 5,0 may be applied"""
+    r = g.r
+    gs = r.randint(1, 125)            # 6,0 reads this field as Mach: <= 250
+    tas = max(1, min(93, gs + r.randint(-40, 40)))   # 6,0 reads bits 47-56 as sign + inertial rate
+    return bds50(r.choice([(0, r.randint(1, 280)), (1, r.randint(232, 511))]), (1, r.randint(1, 1023)), gs,
+                 r.choice([(0, r.randint(1, 187)), (1, r.randint(325, 511))]), tas)
+
+
 ADV_BIT = {"40": 9, "50": 16, "60": 24}
 STATUS = {"40": [1, 14, 27], "50": [1, 12, 24, 35, 46], "60": [1, 13, 24, 35, 46]}
 RESERVED = {"40": list(range(40, 48)) + [52, 53], "50": [], "60": []}
@@ -141,6 +150,17 @@ def gen(seed, tier):
                                 seg(0, [g.f_long(r.choice([20, 21]), icao, None, clean_reg(g, kind))])]
                         cases.append(H("C10-m%d" % n, o, segs))
                         n += 1
+    # (c) first match wins: a register that satisfies the rules of two registers is decoded as the earlier one only
+    for i in range(24 if tier == "quick" else 200):
+        icao = r.choice(ICAOS)
+        o = {"R": 1} if i % 3 == 0 else {}
+        if i % 2:
+            o["U"] = 1
+        segs = [seg(0, [g.f_df11(icao, ca=5)]), seg(0, [g.f_long(20, icao, None, bds17([9, 16, 24]))]),
+                seg(0, [g.f_long(21, icao, None, clean_reg(g, "60"))]), seg(0, [g.f_long(20, icao, None, clean_reg(g, "40"))]),
+                seg(0, [g.f_long(20, icao, None, ambiguous_50_60(g))])]
+        cases.append(H("C10-a%d" % n, o, segs))
+        n += 1
     # (b) every status bit cleared and every reserved bit set, one at a time, gate open and register advertised
     for kind in ("40", "50", "60"):
         for b in STATUS[kind] + RESERVED[kind]:
@@ -222,10 +242,15 @@ def oracle(parts, outcome, obs):
                             fails.append("segment %d: BDS %s fields %s changed although BDS 1,7 never advertised it (flags %s)" % (k, name, ch, adv))
                     # completeness: first register in the precedence whose rules hold, when gating allows it
                     if not coded and r17 is None:
-                        for name, fs, dec, ai in groups:
+                        for gi, (name, fs, dec, ai) in enumerate(groups):
                             if dec is None:
                                 continue
                             if relaxed or adv[ai] == "1":
+                                # first match wins: the registers later in the precedence must not be applied as well
+                                for name2, fs2, dec2, ai2 in groups[gi + 1:]:
+                                    ch2 = [f for f in fs2 if row.get(f) != prev.get(f)]
+                                    if ch2:
+                                        fails.append("segment %d: the MB field is a valid BDS %s register (earlier in the precedence) but BDS %s fields %s changed too" % (k, name, name2, ch2))
                                 for f, want in dec.items():
                                     got = row.get(f)
                                     ok = abs(float(got) - want) < 1e-9 if (f == "mach" and got not in (None, "-")) else got == want
